@@ -230,6 +230,64 @@ pub fn lazy(cx: &mut Ctx) {
     }
 }
 
+/// C13 / C14: comparisons of variables that were built from an encoding and never forced must decode them (an invalid
+/// encoding can never take part in a satisfied equality), and gadgets on Constant-mode inputs equal the native results
+pub fn unforced(cx: &mut Ctx) {
+    let qq = q();
+    let f = fq();
+    let valid: Vec<N> = (0..6u64).map(|k| N::from_bytes_le(&(Element::GENERATOR * decaf377::Fr::from(k)).vartime_compress().0)).collect();
+    let mut invalid: Vec<N> = vec![n(1), n(3), &qq - n(1), &qq - n(2), n(2), n(5)];
+    invalid.retain(|s| Encoding(le32(s)).vartime_decompress().is_err());
+    for a in valid.iter().chain(invalid.iter()) {
+        for b in valid.iter().chain(invalid.iter()) {
+            for route in 0..3u32 {
+                for op in 0..3u32 {
+                    let d = || format!("encodings a = {}, b = {}, allocation route {}, comparison {}", a, b, route, op);
+                    let cs = new_cs();
+                    let mk = |s: &N| -> ElementVar { match route {
+                        0 => <ElementVar as AllocVar<Fq, Fq>>::new_witness(cs.clone(), || Ok(fq_of(s))).unwrap(),
+                        1 => <ElementVar as AllocVar<Fq, Fq>>::new_input(cs.clone(), || Ok(fq_of(s))).unwrap(),
+                        _ => <ElementVar as AllocVar<Fq, Fq>>::new_constant(cs.clone(), fq_of(s)).unwrap() } };
+                    let (va, vb) = (mk(a), mk(b));
+                    let na = Encoding(le32(a)).vartime_decompress(); let nb = Encoding(le32(b)).vartime_decompress();
+                    let r = match op { 0 => va.is_eq(&vb).map(|_| ()), 1 => va.enforce_equal(&vb), _ => va.enforce_not_equal(&vb) };
+                    let sat = r.is_ok() && cs.is_satisfied().unwrap_or(false);
+                    let native_ok = match (&na, &nb) { (Ok(x), Ok(y)) => match op { 0 => true, 1 => x == y, _ => x != y }, _ => false };
+                    cx.eq("comparison of unforced variables is satisfied exactly when the native decode-and-compare succeeds", &d, sat, native_ok);
+                }
+            }
+        }
+    }
+    // Constant-mode inputs: outputs equal the native results, invalid constants are refused
+    let mut ss: Vec<N> = valid.clone(); ss.extend(invalid.iter().cloned()); ss.extend([n(4), n(6), f.sq(&n(3))]);
+    for s in ss.iter() {
+        let d = || format!("constant encoding s = {}", s);
+        let cs = new_cs();
+        let c = FqVar::new_constant(cs.clone(), fq_of(s)).unwrap();
+        let native = Encoding(le32(s)).vartime_decompress();
+        let out = ElementVar::decompress_from_field(c);
+        let ok = out.is_ok() && cs.is_satisfied().unwrap_or(false);
+        cx.eq("decode gadget on a constant accepts iff native decoding succeeds", &d, ok, native.is_ok());
+        if let (Ok(ev), Ok(ne)) = (&out, &native) { if ok {
+            cx.eq("decode gadget on a constant == native element", &d, ev.value().unwrap() == *ne, true);
+            cx.eq("re-encoding the constant == native encoding", &d, val(&ev.compress_to_field().unwrap().value().unwrap()), val(&ne.vartime_compress_to_field()));
+        } }
+        let (nws, ny) = Fq::sqrt_ratio_zeta(&Fq::ONE, &fq_of(s));
+        let (ws, y) = FqVar::constant(fq_of(s)).isqrt().unwrap();
+        cx.eq("isqrt gadget on a constant == native (flag)", &d, ws.value().unwrap(), nws);
+        cx.eq("isqrt gadget on a constant == native (root)", &d, val(&y.value().unwrap()), val(&ny));
+        let ev = ElementVar::encode_to_curve(&FqVar::constant(fq_of(s))).unwrap();
+        cx.eq("Elligator gadget on a constant == native", &d, ev.value().unwrap() == Element::encode_to_curve(&fq_of(s)), true);
+    }
+    for k in 0..6u64 {
+        let e = Element::GENERATOR * decaf377::Fr::from(k);
+        let d = || format!("constant element G * {}", k);
+        let cs = new_cs();
+        let ev = ElementVar::new_constant(cs.clone(), e).unwrap();
+        cx.eq("encode gadget on a constant element == native", &d, val(&ev.compress_to_field().unwrap().value().unwrap()), val(&e.vartime_compress_to_field()));
+    }
+}
+
 /// C14 bounded stand-in for witnessed coordinates: a malicious prover offers arbitrary coordinate pairs through both
 /// `AllocVar<AffinePoint>` and `AllocVar<Element>` (Witness mode).  Pairs outside the image of the group (off the
 /// curve, or on the curve but outside 2E) must leave the system unsatisfied; other representatives of a group
